@@ -995,6 +995,9 @@ buildCommand(BuildContext& context, ninja::Command* command) {
       // shouldn't run this command.
       if (!value.isExistingInput() && !value.isSuccessfulCommand()) {
         shouldSkip = true;
+        // Nor may it be declared up-to-date from timestamps alone, or its own
+        // dependents would run although a command they depend on failed.
+        canUpdateIfNewer = false;
         if (value.isMissingInput()) {
           hasMissingInput = true;
 
